@@ -107,8 +107,23 @@ func (r sameEvaluatorStringer) String() string {
 		}()
 		currentEvaluator = ev
 	}
+	// the rule that is being evaluated, evaluated again from inside it (a tree of nodes applying the caller's rule to their children)
+	if rule := currentRule; rule != "" {
+		currentRule = ""
+		func() {
+			defer func() { recover() }()
+			rules.Evaluate(rule, currentPlainObject)
+			parser.Evaluate(rule, currentPlainObject)
+			if e2, err := parser.NewEvaluator(rule); err == nil && e2 != nil {
+				e2.Process(currentPlainObject)
+			}
+		}()
+		currentRule = rule
+	}
 	return r.s
 }
+
+var currentRule string
 
 // plainCopy: the object with every sameEvaluatorStringer replaced by its text
 func plainCopy(v interface{}) interface{} {
@@ -138,6 +153,31 @@ func (p invopPanicStringer) String() string {
 		panic(fmt.Errorf("inner rule failed: %w", parser.ErrInvalidOperation))
 	}
 	panic(parser.ErrInvalidOperation)
+}
+
+type treeT []treeT
+type mapT map[string]mapT
+type ptrT *ptrT
+
+// a Stringer that is an encoding.TextMarshaler too (like time.Time): the text of a Stringer is what String() returns
+type stringerAndMarshaler struct{ s string }
+
+func (v stringerAndMarshaler) String() string               { return v.s }
+func (v stringerAndMarshaler) MarshalText() ([]byte, error) { return []byte("T:" + v.s), nil }
+func (v stringerAndMarshaler) MarshalJSON() ([]byte, error) { return []byte(`"J:` + v.s + `"`), nil }
+
+// a value of the caller that adds a key to the caller's own top-level map when it is printed (no model counterpart: used only to
+// compare the three entry points with each other)
+type mutatingStringer struct {
+	s    string
+	home map[string]interface{}
+}
+
+func (m mutatingStringer) String() string {
+	if m.home != nil {
+		m.home["added"] = 1
+	}
+	return m.s
 }
 
 type valueWithPtrString struct{ s string }
@@ -308,6 +348,13 @@ func other(tag int) interface{} {
 		return &parser.NestedError{Msg: "m", Err: errors.New("e")}
 	case 49:
 		return []interface{}{nil, "a", nil, "b"}
+	case 50: // acyclic values of named types that refer to themselves
+		return treeT{treeT{}, treeT{treeT{}}}
+	case 51:
+		return mapT{"a": mapT{}, "b": mapT{"c": nil}}
+	case 52:
+		var p ptrT
+		return &p
 	case 33: // a list of strings with capitals (in-place lower-casing would show)
 		return []string{"Admin", "ROOT", "Ops"}
 	case 34:
@@ -419,6 +466,18 @@ func buildVal(x *sexp) (interface{}, error) {
 			return nil, errors.New("bad string")
 		}
 		return sameEvaluatorStringer{s}, nil
+	case "strtm":
+		s, ok := hexBytes(a)
+		if !ok {
+			return nil, errors.New("bad string")
+		}
+		return stringerAndMarshaler{s}, nil
+	case "strmut":
+		s, ok := hexBytes(a)
+		if !ok {
+			return nil, errors.New("bad string")
+		}
+		return mutatingStringer{s: s}, nil
 	case "strreent":
 		s, ok := hexBytes(a)
 		if !ok {
@@ -818,6 +877,27 @@ func doEval(id string, rule string, objx *sexp) string {
 	}
 	snap := snapshot(obj)
 	currentPlainObject, _ = plainCopy(obj).(map[string]interface{})
+	currentRule = rule
+	defer func() { currentRule = "" }()
+	for k, e := range obj {
+		if ms, ok := e.(mutatingStringer); ok {
+			ms.home = obj
+			obj[k] = ms
+		}
+	}
+	hasMut := false
+	for _, e := range obj {
+		if _, ok := e.(mutatingStringer); ok {
+			hasMut = true
+		}
+	}
+	// every entry point starts from the same object: what a caller's own value added during one call is taken out again
+	resetObj := func() {
+		if hasMut {
+			delete(obj, "added")
+		}
+	}
+	snap = snapshot(obj)
 	escaped := false
 	guard := func(f func()) {
 		defer func() {
@@ -835,6 +915,7 @@ func doEval(id string, rule string, objx *sexp) string {
 		currentEvaluator = ev
 		guard(func() { verdict, perr = ev.Process(obj) })
 		currentEvaluator = nil
+		resetObj()
 		guard(func() { dbg = ev.LastDebugErr() })
 	} else {
 		perr = newErr
@@ -846,7 +927,9 @@ func doEval(id string, rule string, objx *sexp) string {
 	var v2, v3 bool
 	var e2 error
 	guard(func() { v2, e2 = rules.Evaluate(rule, obj) })
+	resetObj()
 	guard(func() { v3 = parser.Evaluate(rule, obj) })
+	resetObj()
 	frame2 := same(obj, snap)
 	acc, _ := strictAccept(strings.TrimSpace(rule))
 	// the same rule and object once more, on a new evaluator: outcomes must not depend on map
@@ -860,6 +943,7 @@ func doEval(id string, rule string, objx *sexp) string {
 		currentEvaluator = ev2
 		guard(func() { verdict2, perr2 = ev2.Process(obj) })
 		currentEvaluator = nil
+		resetObj()
 		guard(func() { dbg2 = ev2.LastDebugErr() })
 		if ev == nil || newErr != nil || verdict2 != verdict || errClass(perr2) != errClass(perr) || dbgClass(dbg2) != dbgClass(dbg) {
 			det = false
@@ -1056,6 +1140,18 @@ func doHist(id, rule string, ops *sexp) string {
 			return id + " BADCASE"
 		}
 		obj := ov.(map[string]interface{})
+		if op.list[0].atom == "u" {
+			// the caller changes its object in place and calls nothing: no output, no effect on the evaluator
+			if lastObj != nil {
+				for k := range lastObj {
+					delete(lastObj, k)
+				}
+				for k, val := range obj {
+					lastObj[k] = val
+				}
+			}
+			continue
+		}
 		if op.list[0].atom == "q" && lastObj != nil {
 			// same map value as the previous call, mutated in place to the new content
 			for k := range lastObj {
@@ -1078,6 +1174,11 @@ func doHist(id, rule string, ops *sexp) string {
 			v, perr = ev.Process(obj)
 		}()
 		keep(perr)
+		if op.list[0].atom == "n" {
+			// Process without looking at the diagnostic afterwards
+			outs = append(outs, "p"+b01(v)+","+errClass(perr)+",skip")
+			continue
+		}
 		outs = append(outs, "p"+b01(v)+","+errClass(perr)+","+dbgClass(ev.LastDebugErr()))
 	}
 	keptState := "ok"
@@ -1092,6 +1193,35 @@ func doHist(id, rule string, ops *sexp) string {
 		}
 	}
 	return id + " out=" + strings.Join(outs, ";") + " kept=" + keptState
+}
+
+var sharedOps = map[string]parser.Operation{"null": &parser.NullOperation{}, "bool": &parser.BoolOperation{}, "int": &parser.IntOperation{}, "float": &parser.FloatOperation{},
+	"string": &parser.StringOperation{}, "version": &parser.VersionOperation{}}
+
+func opMethod(op parser.Operation, name string) func(parser.Operand, parser.Operand) (bool, error) {
+	switch name {
+	case "EQ":
+		return op.EQ
+	case "NE":
+		return op.NE
+	case "GT":
+		return op.GT
+	case "LT":
+		return op.LT
+	case "GE":
+		return op.GE
+	case "LE":
+		return op.LE
+	case "CO":
+		return op.CO
+	case "SW":
+		return op.SW
+	case "EW":
+		return op.EW
+	case "IN":
+		return op.IN
+	}
+	return nil
 }
 
 func doOpcall(id string, x *sexp) (out string) {
@@ -1112,6 +1242,8 @@ func doOpcall(id string, x *sexp) (out string) {
 	default:
 		return id + " BADCASE"
 	}
+	// the same call on ONE operation object per type that lives as long as the process (callers may keep an Operation around)
+	shared := sharedOps[x.list[2].atom]
 	l, err := buildVal(x.list[4])
 	if err != nil {
 		return id + " BADCASE"
@@ -1150,21 +1282,37 @@ func doOpcall(id string, x *sexp) (out string) {
 			out = id + " res=0 err=panic"
 		}
 	}()
-	res, e := f(l, r)
-	cls := "other"
-	switch {
-	case e == nil:
-		cls = "none"
-	case e == parser.ErrInvalidOperation:
-		cls = "invop"
-	case e == parser.ErrEvalOperandMissing:
-		cls = "missing"
-	default:
-		if _, ok := e.(*parser.ErrInvalidOperand); ok {
-			cls = "operand"
+	classify := func(e error) string {
+		switch {
+		case e == nil:
+			return "none"
+		case e == parser.ErrInvalidOperation:
+			return "invop"
+		case e == parser.ErrEvalOperandMissing:
+			return "missing"
 		}
+		if _, ok := e.(*parser.ErrInvalidOperand); ok {
+			return "operand"
+		}
+		return "other"
 	}
-	return id + " res=" + b01(res) + " err=" + cls
+	res, e := f(l, r)
+	cls := classify(e)
+	sharedSame := true
+	if g := opMethod(shared, x.list[3].atom); g != nil {
+		func() {
+			defer func() {
+				if rec := recover(); rec != nil {
+					sharedSame = false
+				}
+			}()
+			l2, _ := buildVal(x.list[4])
+			r2, _ := buildOperand(x.list[5])
+			res2, e2 := g(l2, r2)
+			sharedSame = res2 == res && classify(e2) == cls
+		}()
+	}
+	return id + " res=" + b01(res) + " err=" + cls + " shared=" + b01(sharedSame)
 }
 
 func zhex(neg bool, m uint64) string {
